@@ -315,7 +315,8 @@ EXTRA = {
            "link the host considers failed - must not hand old-session frames up a second time (only duplicates are "
            "judged there: across a reset the two ends are briefly in different sessions).",
     "C02": " Macro symbols include ERROR / RSTACK code 0x00 and data fields of exactly 256 and 257 bytes; mutated streams "
-           "use payloads up to 300 bytes and codes 0x00 / 0xFF.",
+           "use payloads up to 300 bytes and codes 0x00 / 0xFF."
+           " Over-long flag-free runs are also ended by CANCEL and by SUBSTITUTE (not only by FLAG) and followed by a valid frame, which must be delivered.",
     "C03": " A fifth payload pattern makes the randomised data field walk through every ordered pair of reserved / "
            "reserved^0x20 bytes; every DATA frame is also fed to the running receiver as the reference's wire image "
            "(decode direction end to end); the stuffing helpers are compared with the reference on all 2-byte strings "
@@ -323,7 +324,8 @@ EXTRA = {
            "DEBUG logging on.",
     "C04": " Several frames are also delivered in ONE read (all pairs from every state, seeded longer reads): one answer "
            "per DATA frame, in order; the rule is also checked after the host gave up on a send of its own (budget "
-           "exhausted by timeouts or NAKs): an ERROR frame still reports its code, an RSTACK still restarts numbering.",
+           "exhausted by timeouts or NAKs): an ERROR frame still reports its code, an RSTACK still restarts numbering."
+           " The rule is also checked after the host itself called send_reset() (once, twice; in mid-walk) and the RSTACK has not arrived yet: DATA, ERROR and the rest are still treated by the rule.",
     "C05": " After a failure the host's own RST is written and another send is issued before the RSTACK arrives: still "
            "no DATA frame may be written; callers are cancelled while their frame is in flight (the frame stays the "
            "link's business: window and budget rules continue to apply); an ERROR frame arriving after the host gave up "
@@ -334,7 +336,8 @@ EXTRA = {
     "C07": " Keyword calls are also made in reversed / shuffled order and mixed with a positional prefix; an "
            "invalidCommand frame answering pending commands of several response layouts must be decoded with its own "
            "schema; half of the shards use a socket:// device path; every unsolicited frame is fed twice in a row and "
-           "must be delivered twice.",
+           "must be delivered twice."
+           " Values that one of bellows' own field types decodes from bytes but cannot encode and decode back to themselves are violations of the codec clause (they used to be left out of the generated tuples).",
     "C08": " Truncations are repeated with other frame-control bytes (overflow / truncated / callback-pending / reserved "
            "bits); the pending command's caller is cancelled and its well-formed response delivered before the "
            "cancelled task has run its clean-up.",
@@ -345,7 +348,8 @@ EXTRA = {
            "startup_reset + write_config on the same connection (ControllerApplication._reset), which must reset the NCP "
            "and renegotiate from the legacy format; an exception escaping the receive callback is treated as asyncio's "
            "socket transports do (close, connection_lost) on socket paths and as serial-port transports do (logged) on "
-           "serial paths.",
+           "serial paths."
+           " An NCP callback frame - of every frame number 0..7 in turn - is on the wire when the host's RST of the second reset is written, so it is read between RST and RSTACK.",
     "C10": " Failure kinds include an NCP that rejects the next one or three DATA frames with a NAK and is silent from "
            "then on; every post-registration crash point is repeated after a history in which the NCP already failed "
            "once before any application was attached; the NCP takes 4 ms to execute a command on half of the cases; the "
@@ -356,32 +360,39 @@ EXTRA = {
            "retransmission of one the host already took - may arrive between the RST and the RSTACK; a host DATA frame "
            "may still be unacknowledged at the reset, with another one queued behind it; numbering is also checked "
            "after a completed start-up wait following prior traffic; the waiter-release clause is repeated with the "
-           "gateway in its own thread (use_thread=True, real time).",
+           "gateway in its own thread (use_thread=True, real time)."
+           " The connection is also lost (error, EOF, clean close) while a host DATA frame is unacknowledged and another is queued.",
     "C12": " Refusals and failed confirmations are repeated with every other status code of the reply's status family; "
            "confirmations of every outgoing-message type carrying the request's tag but another destination / table "
            "index must not complete it; the application is disconnected while accepted unicasts await confirmation.",
     "C13": " Mixed shards keep applications of several protocol versions alive in one process; the same application "
            "object is reconnected to NCPs of other versions across the v14 boundary; the node's own network address is "
            "changed mid-run; the network information is re-read while unicasts keep arriving; trust-centre join "
-           "callbacks also come in bursts of two or three, and events are judged after the loop had time.",
+           "callbacks also come in bursts of two or three, and events are judged after the loop had time."
+           " Join and leave callbacks also name devices the application already has in its device table, under the same or another network address.",
     "C14": " A link key that is not the last one may be refused by the NCP (the others must still make the round trip); "
-           "frame counter 0 is written over an NCP that holds a non-zero counter from an earlier network.",
+           "frame counter 0 is written over an NCP that holds a non-zero counter from an earlier network."
+           " Every third NCP sees two or three restores in a row, the later ones often for the (restored) address it runs with at that moment.",
     "C15": " Start-up is also run with several coordinator endpoints that share groups, and again on the same object "
            "after the NCP cleared or lost entries; pairs / triples of calls for different groups overlap in time; "
            "rejections are repeated with every status code of the reply's family; group changes are also made through "
-           "the coordinator's endpoint of a started application (add_to_group / remove_from_group).",
+           "the coordinator's endpoint of a started application (add_to_group / remove_from_group)."
+           " In-use initial entries sit on endpoints 1, 2, 127, 242 and 255 and on network indexes 0, 1 and 255.",
     "C16": " Rejections carry status codes cycling through the reply's whole status family; overrides equal to the "
            "library's own default are user values too; the configuration is also written through "
            "ControllerApplication.connect() and _reset() on every version.",
     "C17": " 'Quiet' shards deliver nothing but the operations' own completing events, so the same status value repeats "
            "with nothing in between; 'overlap' shards run scan, poll, ZLL scan and a foreign add/remove_callback with "
            "every interleaving of their start and end events (non-LIFO lifetimes): each list command returns exactly "
-           "the results delivered between its issue and its completion and nothing stays registered.",
+           "the results delivered between its issue and its completion and nothing stays registered."
+           " 'status_overlap' shards run two or three operations that wait for a stack status at the same time (formNetwork, leaveNetwork, bare waiters as the application's bring-up uses them), one of them sometimes cancelled: each completes at the first matching event, none is skipped.",
+    "C18": " Every undefined unified value below 0x20000 and structured 32-bit values (legacy codes in the low byte under various high bytes) are included.",
     "C19": " Free-buffer reports vary from feed to feed (including nearly none); the all-success period run carries "
            "isolated failures; on v4 the EZSP object is closed for good while the watchdog keeps feeding.",
     "C20": " Wrappers are also looked up once (on the owner loop, on another loop, in a thread without a loop) and called "
            "later from elsewhere; calls are made while the owner's loop is open but not running and must execute once it "
            "runs; a quarter of the coroutine calls are fire-and-forget and must execute all the same; coroutine calls "
            "handed to the owner's loop before force_stop() - running or still queued behind a busy loop - must come back "
-           "to their callers; a proxy that is the only holder of its object keeps it alive across garbage collections.",
+           "to their callers; a proxy that is the only holder of its object keeps it alive across garbage collections."
+           " Coroutine calls that need up to 1.6 s to unwind after force_stop() must still relay what they end with (value, own exception, cancellation); the verdict is taken once the owner thread has ended.",
 }
